@@ -22,6 +22,7 @@ type Case struct {
 	Y    core.Dec `json:"y"`
 	QExp int32    `json:"qexp,omitempty"` // target exponent of quantize
 	Str  string   `json:"str,omitempty"`  // spelling of X for setstring
+	Note string   `json:"note,omitempty"` // free-form class marker set by a generator
 }
 
 func (c Case) String() string {
